@@ -331,11 +331,23 @@ def mkPcd (fsci fwi maxSend : Nat) : Pcd :=
   let n := deriveRetry fwi
   { pni := 0, miu := (deriveFsc fsci maxSend : Int) - 3, nNak := n, nAck := n, failed := none }
 
-/-- Type 4A: FSCI from T0 (`rats_res[1]`), FWI from `rats_res[3]` -/
+/-- Type 4A (`Type4ATag.__init__`): the format byte T0 (`rats_res[1]`) carries FSCI and tells which interface
+bytes follow; TB(1) carries FWI and is preceded by TA(1) only if that is present.  Without T0 or TB(1) the
+defaults FSCI = 2 and FWI = 4 apply.  Never raises. -/
 def activateA (rats : Bytes) (maxSend : Nat) : Py Pcd :=
-  idxN rats 1 >>= fun t0 =>
-  idxN rats 3 >>= fun tb =>
-  .ok (mkPcd (t0 &&& 0x0F) (tb >>> 4) maxSend)
+  match rats[1]? with
+  | none => .ok (mkPcd 2 4 maxSend)
+  | some t0 =>
+    let tbIndex := if t0 &&& 0x10 ≠ 0 then 3 else 2
+    let fwi := if t0 &&& 0x20 ≠ 0 then (match rats[tbIndex]? with | some tb => tb >>> 4 | none => 4) else 4
+    .ok (mkPcd (t0 &&& 0x0F) fwi maxSend)
+
+/-- an Answer To Select as ISO/IEC 14443-4 5.2 lays it out: TL, T0 (FSCI and the presence bits of TA(1), TB(1),
+TC(1)), the interface bytes that are present, historical bytes -/
+def mkAts (fsci : Nat) (ta tb tc : Option Nat) (hist : Bytes) : Bytes :=
+  let t0 := fsci ||| (if ta.isSome then 0x10 else 0) ||| (if tb.isSome then 0x20 else 0) ||| (if tc.isSome then 0x40 else 0)
+  let body := t0 :: (ta.toList ++ tb.toList ++ tc.toList ++ hist)
+  (body.length + 1) :: body
 
 /-- Type 4B: FSCI and FWI from SENSB_RES bytes 10 and 11 -/
 def activateB (sensb : Bytes) (maxSend : Nat) : Py Pcd :=
